@@ -258,7 +258,7 @@ Proof.
     + exact Hl'.
     + apply Hc.
     + intros j st Hj Hhd. apply (k_hold s Hc j st Hj Hhd).
-    + cbn [acquire m_wr]. unfold wr_expected. cbn [manual]. rewrite Hwr0. reflexivity.
+    + cbn [acquire m_wr]. unfold wr_expected. cbn [set_manual set_loop set_lk set_strs manual loop]. rewrite Hwr0. reflexivity.
     + intros _. exact Hlp.
     + intros t k Hi. rewrite acquire_blk in Hi. apply (k_blk s Hc t k Hi).
     + intros Hw. rewrite acquire_blk. apply (k_wait s Hc Hw).
@@ -273,8 +273,8 @@ Proof.
     + exact Hlinv.
     + rewrite Hnr. apply Hc.
     + intros j st Hj Hhd. rewrite Hrd. apply (k_hold s Hc j st Hj Hhd).
-    + rewrite Hwr', Hwr. unfold wr_expected. cbn [manual remove1 tid_reap Nat.eqb].
-      pose proof (k_excl s Hc Hen) as Hx. destruct (loop s); try reflexivity. contradiction.
+    + rewrite Hwr', Hwr. unfold wr_expected. cbn [set_manual set_loop set_lk set_strs manual loop remove1 tid_reap Nat.eqb].
+      pose proof (k_excl s Hc Hen) as Hx. destruct (loop s) eqn:El; try reflexivity. congruence.
     + discriminate.
     + intros t k Hi. apply Hblk in Hi. apply (k_blk s Hc t k Hi).
     + intros Hw. apply Hblk. apply (k_wait s Hc Hw).
@@ -291,7 +291,7 @@ Proof.
       * exact Hl'.
       * apply Hc.
       * intros j st Hj Hhd. apply (k_hold s Hc j st Hj Hhd).
-      * cbn [park m_wr]. rewrite (k_wr s Hc). unfold wr_expected. cbn [manual loop]. rewrite Hidle. reflexivity.
+      * cbn [park m_wr]. rewrite (k_wr s Hc). unfold wr_expected. cbn [set_manual set_loop set_lk set_strs manual loop]. rewrite Hidle. reflexivity.
       * discriminate.
       * intros t k Hi. unfold blk in Hi. cbn [park m_wait m_woken] in Hi. rewrite <- app_assoc in Hi.
         apply in_app_or in Hi as [Hi|Hi].
@@ -314,7 +314,7 @@ Proof.
       * exact Hl'.
       * apply Hc.
       * intros j st Hj Hhd. apply (k_hold s Hc j st Hj Hhd).
-      * cbn [acquire m_wr]. unfold wr_expected. cbn [manual loop]. rewrite Hman, Hwr0. reflexivity.
+      * cbn [acquire m_wr]. unfold wr_expected. cbn [set_manual set_loop set_lk set_strs manual loop]. rewrite Hman, Hwr0. reflexivity.
       * rewrite Hman. discriminate.
       * intros t k Hi. rewrite acquire_blk in Hi. exfalso. destruct (k_blk s Hc t k Hi) as (_ & _ & W).
         rewrite Hidle in W. discriminate.
@@ -339,7 +339,7 @@ Proof.
       * exact Hl'.
       * apply Hc.
       * intros j st Hj Hhd. apply (k_hold s Hc j st Hj Hhd).
-      * cbn [park unwoken m_wr]. rewrite (k_wr s Hc). unfold wr_expected. cbn [manual loop]. rewrite Hwait. reflexivity.
+      * cbn [park unwoken m_wr]. rewrite (k_wr s Hc). unfold wr_expected. cbn [set_manual set_loop set_lk set_strs manual loop]. rewrite Hwait. reflexivity.
       * discriminate.
       * intros t k Hi. unfold blk in Hi. cbn [park m_wait m_woken] in Hi. rewrite <- app_assoc in Hi.
         apply in_app_or in Hi as [Hi|Hi].
@@ -359,7 +359,7 @@ Proof.
       * exact Hl'.
       * apply Hc.
       * intros j st Hj Hhd. apply (k_hold s Hc j st Hj Hhd).
-      * cbn [acquire unwoken m_wr]. unfold wr_expected. cbn [manual loop]. rewrite Hman, Hwr0. reflexivity.
+      * cbn [acquire unwoken m_wr]. unfold wr_expected. cbn [set_manual set_loop set_lk set_strs manual loop]. rewrite Hman, Hwr0. reflexivity.
       * rewrite Hman. discriminate.
       * intros t k Hi. rewrite acquire_blk in Hi. exfalso.
         destruct (k_blk s Hc t k (Hsub _ Hi)) as (A & B & _). subst t k.
@@ -379,7 +379,7 @@ Proof.
     + exact Hlinv.
     + rewrite Hnr. apply Hc.
     + intros j st Hj Hhd. rewrite Hrd. apply (k_hold s Hc j st Hj Hhd).
-    + rewrite Hwr', Hwr. unfold wr_expected. cbn [manual loop]. rewrite Hman. reflexivity.
+    + rewrite Hwr', Hwr. unfold wr_expected. cbn [set_manual set_loop set_lk set_strs manual loop]. rewrite Hman. reflexivity.
     + discriminate.
     + intros t k Hi. apply Hblk in Hi. exfalso. destruct (k_blk s Hc t k Hi) as (_ & _ & W). rewrite Hre in W. discriminate.
     + discriminate.
@@ -392,3 +392,170 @@ Lemma cinv_reach : forall l s, run senabled sstep sinit l = Some s -> cinv s.
 Proof.
   intros l s. apply (invariant_rule senabled sstep cinv); [exact cinv_init|exact cinv_step].
 Qed.
+
+(* ------------------------------------------------------------------ the property *)
+
+(* reaping (by Store.Reap or by the reaper goroutine) and an open stream never coexist; at most
+   one reaper is inside *)
+Lemma reaping_excludes_streams : forall l s, run senabled sstep sinit l = Some s ->
+  reaping s = true ->
+  (forall i st, nth_error (strs s) i = Some st -> holding st = false) /\
+  nholding (strs s) = 0 /\ ~ (manual s = true /\ loop s = LReaping).
+Proof.
+  intros l s Hr Hre. pose proof (cinv_reach l s Hr) as Hc. pose proof (k_lock s Hc) as Hl.
+  assert (Hwr : m_wr (lk s) <> []).
+  { rewrite (k_wr s Hc). unfold wr_expected. unfold reaping in Hre.
+    destruct (manual s); [discriminate|]. destruct (loop s); cbn in Hre; try discriminate. }
+  apply (held_iff_wr _ Hl) in Hwr.
+  destruct (i_own _ Hl) as [Hrd _]; [rewrite Hwr; reflexivity|].
+  split; [|split].
+  - intros i st Hn. destruct (holding st) eqn:Hh; [|reflexivity].
+    pose proof (k_hold s Hc i st Hn Hh) as Hin. rewrite Hrd in Hin. destruct Hin.
+  - pose proof (k_nr s Hc) as Hnr. rewrite (i_nr _ Hl), Hrd in Hnr. cbn in Hnr. lia.
+  - intros [A B]. apply (k_excl s Hc A B).
+Qed.
+
+(* the lock's reader count is the number of streams that are open and not yet released *)
+Lemma reader_count : forall l s, run senabled sstep sinit l = Some s ->
+  m_nr (lk s) = Z.of_nat (nholding (strs s)) /\ (0 <= m_nr (lk s))%Z.
+Proof.
+  intros l s Hr. pose proof (cinv_reach l s Hr) as Hc. split; [apply Hc|]. rewrite (k_nr s Hc). lia.
+Qed.
+
+(* no call of the protocol makes the lock panic (reader count below zero, EndWrite without a
+   writer) and every stream has released exactly once iff it was opened and then closed by
+   Close, by the idle timer, or by both in either order *)
+Lemma step_no_panic : forall s a, cinv s -> senabled s a = true ->
+  snd (sstep_obs s a) <> OPanic /\ snd (sstep_obs s a) <> OInvalid.
+Proof.
+  intros s a Hc Hen. pose proof (k_lock s Hc) as Hl.
+  destruct a as [|i|i|i|i| | | | | | |]; cbn [sstep_obs senabled] in *.
+  - cbn [mrsw_step_obs]. destruct (negb (is_empty (m_owner (lk s)))); cbn; split; discriminate.
+  - destruct (nth_error (strs s) i) as [st|]; [|discriminate]. rewrite Hen. cbn [negb].
+    destruct (s_timedout st); [cbn; split; discriminate|]. destruct (s_closed st); cbn; split; discriminate.
+  - destruct (nth_error (strs s) i) as [st|] eqn:Hn; [|discriminate]. rewrite Hen. cbn [negb].
+    destruct (s_closed st) eqn:Hcl; [cbn; split; discriminate|].
+    destruct (release_cinv s i st (s_timedout st) Hc Hn) as [_ Ho]; [unfold holding; rewrite Hen, Hcl; reflexivity|].
+    rewrite Ho. split; discriminate.
+  - destruct (nth_error (strs s) i) as [st|] eqn:Hn; [|discriminate]. rewrite Hen. cbn [negb].
+    destruct (s_closed st) eqn:Hcl; [cbn; split; discriminate|].
+    destruct (release_cinv s i st true Hc Hn) as [_ Ho]; [unfold holding; rewrite Hen, Hcl; reflexivity|].
+    rewrite Ho. split; discriminate.
+  - destruct (nth_error (strs s) i) as [st|]; [|discriminate]. rewrite Hen. cbn. split; discriminate.
+  - cbn. split; discriminate.
+  - cbn [mrsw_step_obs]. replace (is_empty "reap") with false by reflexivity.
+    destruct (negb (is_empty (m_owner (lk s)))); cbn; [split; discriminate|].
+    destruct (0 <? m_nr (lk s))%Z; cbn; split; discriminate.
+  - assert (Hwr : m_wr (lk s) = [tid_reap]).
+    { rewrite (k_wr s Hc). unfold wr_expected. rewrite Hen. reflexivity. }
+    destruct (lock_endwrite (lk s) tid_reap Hl) as (Hobs & _);
+      [rewrite Hwr; left; reflexivity|apply reap_not_blocked; exact Hc|].
+    destruct (mrsw_step_obs (lk s) (MEndWrite tid_reap)) as [l1 o]. cbn [snd] in Hobs. subst o.
+    cbn. split; discriminate.
+  - cbn [mrsw_step_obs]. replace (is_empty "reap") with false by reflexivity.
+    unfold try_blocking. destruct (guard_blocked (lk s) (WW "reap")); cbn; split; discriminate.
+  - apply andb_true_iff in Hen as [_ Hw]. apply memn_In in Hw. destruct (find_w_some _ _ Hw) as [k Hf].
+    cbn [mrsw_step_obs]. rewrite Hf. unfold try_blocking.
+    match goal with |- context [guard_blocked ?x k] => destruct (guard_blocked x k) end; cbn; split; discriminate.
+  - assert (Hre : loop s = LReaping) by (destruct (loop s); [discriminate|discriminate|reflexivity]).
+    assert (Hman : manual s = false).
+    { destruct (manual s) eqn:E; [|reflexivity]. exfalso. apply (k_excl s Hc E). exact Hre. }
+    assert (Hwr : m_wr (lk s) = [tid_loop]).
+    { rewrite (k_wr s Hc). unfold wr_expected. rewrite Hman, Hre. reflexivity. }
+    destruct (lock_endwrite (lk s) tid_loop Hl) as (Hobs & _);
+      [rewrite Hwr; left; reflexivity|apply loop_not_blocked; [exact Hc|rewrite Hre; discriminate]|].
+    destruct (mrsw_step_obs (lk s) (MEndWrite tid_loop)) as [l1 o]. cbn [snd] in Hobs. subst o.
+    cbn. split; discriminate.
+  - cbn. split; discriminate.
+Qed.
+
+Lemma release_exactly_once : forall l s, run senabled sstep sinit l = Some s ->
+  (forall i st, nth_error (strs s) i = Some st ->
+     s_released st = (if s_opened st && s_closed st then 1 else 0) /\ s_released st <= 1 /\
+     (s_timedout st = true -> s_closed st = true)) /\
+  (forall a, senabled s a = true -> snd (sstep_obs s a) <> OPanic /\ snd (sstep_obs s a) <> OInvalid).
+Proof.
+  intros l s Hr. pose proof (cinv_reach l s Hr) as Hc. split.
+  - intros i st Hn. destruct (k_str s Hc i st Hn) as (A & _ & C). split; [exact A|]. split; [|exact C].
+    rewrite A. destruct (s_opened st && s_closed st); lia.
+  - intros a Hen. apply step_no_panic; assumption.
+Qed.
+
+(* once no stream holds the store (each closed, or force-closed by its idle timer) and nobody
+   is reaping, Store.Reap gets in, and a reaper goroutine waiting in BeginWriteBlocking has been
+   woken: its resume step is enabled and it starts reaping *)
+Lemma reap_enabled_when_streams_done : forall l s, run senabled sstep sinit l = Some s ->
+  nholding (strs s) = 0 -> reaping s = false ->
+  senabled s AReapBegin = true /\ snd (sstep_obs s AReapBegin) = OOk /\
+  (loop s = LWaiting ->
+     senabled s ALoopResume = true /\ snd (sstep_obs s ALoopResume) = OOk /\
+     loop (sstep s ALoopResume) = LReaping).
+Proof.
+  intros l s Hr Hz Hnre. pose proof (cinv_reach l s Hr) as Hc. pose proof (k_lock s Hc) as Hl.
+  unfold reaping in Hnre. apply orb_false_iff in Hnre as [Hman Hlp].
+  assert (Hwr : m_wr (lk s) = []).
+  { rewrite (k_wr s Hc). unfold wr_expected. rewrite Hman. destruct (loop s); try reflexivity. discriminate. }
+  assert (Hh : negb (is_empty (m_owner (lk s))) = false).
+  { destruct (is_empty (m_owner (lk s))) eqn:E; [reflexivity|]. apply (held_iff_wr _ Hl) in E. contradiction. }
+  assert (Hnr : m_nr (lk s) = 0%Z) by (rewrite (k_nr s Hc), Hz; reflexivity).
+  split; [cbn; rewrite Hman; reflexivity|]. split.
+  - cbn [sstep_obs mrsw_step_obs]. replace (is_empty "reap") with false by reflexivity.
+    rewrite Hh, Hnr. reflexivity.
+  - intros Hw. pose proof (k_wait s Hc Hw) as Hin. unfold blk in Hin.
+    assert (Hg : guard_blocked (lk s) (WW "reap") = false) by (rewrite guard_WW, Hh, Hnr; reflexivity).
+    assert (Hwk : In (tid_loop, WW "reap") (m_woken (lk s))).
+    { apply in_app_or in Hin as [Hin|Hin]; [|exact Hin]. rewrite (i_wait _ Hl _ _ Hin) in Hg. discriminate. }
+    assert (Hnd : NoDup (map fst (m_woken (lk s)))).
+    { pose proof (i_nodup _ Hl) as H. rewrite map_app in H. apply nodup_app_r in H. exact H. }
+    pose proof (find_w_unique _ _ _ Hnd Hwk) as Hf.
+    split; [|split].
+    + cbn [senabled]. rewrite Hw. cbn [lphase_eqb andb]. apply memn_In. apply (in_map fst) in Hwk. exact Hwk.
+    + cbn [sstep_obs mrsw_step_obs]. rewrite Hf. unfold try_blocking.
+      match goal with |- context [guard_blocked ?x (WW "reap")] =>
+        change (guard_blocked x (WW "reap")) with (guard_blocked (lk s) (WW "reap")) end.
+      rewrite Hg. reflexivity.
+    + unfold sstep. cbn [sstep_obs mrsw_step_obs]. rewrite Hf. unfold try_blocking.
+      match goal with |- context [guard_blocked ?x (WW "reap")] =>
+        change (guard_blocked x (WW "reap")) with (guard_blocked (lk s) (WW "reap")) end.
+      rewrite Hg. reflexivity.
+Qed.
+
+(* the idle timer of a stream that still holds the store can always fire; it force-closes the
+   stream, releases its hold (one reader fewer), later reads fail with the timeout error and a
+   later Close changes nothing *)
+Lemma idle_fire_releases : forall l s i st, run senabled sstep sinit l = Some s ->
+  nth_error (strs s) i = Some st -> holding st = true ->
+  senabled s (AFire i) = true /\ snd (sstep_obs s (AFire i)) = OOk /\
+  let s' := sstep s (AFire i) in
+  S (nholding (strs s')) = nholding (strs s) /\
+  (exists st', nth_error (strs s') i = Some st' /\ s_closed st' = true /\ s_timedout st' = true /\ s_released st' = 1) /\
+  snd (sstep_obs s' (ARead i)) = OTimeoutErr /\ sstep_obs s' (AClose i) = (s', OOk).
+Proof.
+  intros l s i st Hr Hn Hh. pose proof (cinv_reach l s Hr) as Hc.
+  assert (Hoc : s_opened st = true /\ s_closed st = false).
+  { unfold holding in Hh. apply andb_true_iff in Hh as [A B]. apply negb_true_iff in B. split; assumption. }
+  destruct Hoc as [Ho Hcl].
+  destruct (release_cinv s i st true Hc Hn Hh) as [_ Hobs].
+  destruct (k_str s Hc i st Hn) as (Hrel & _ & _). rewrite Ho, Hcl in Hrel. cbn in Hrel.
+  split; [cbn; rewrite Hn; exact Ho|].
+  unfold sstep. cbn [sstep_obs]. rewrite Hn, Ho, Hcl. cbn [negb].
+  split; [exact Hobs|].
+  unfold release_stream in *. destruct (mrsw_step_obs (lk s) (MEndRead (tid_stream i))) as [l1 o].
+  cbn [fst snd set_strs set_lk strs lk].
+  set (f := fun st0 : stream => {| s_opened := s_opened st0; s_closed := true; s_timedout := true;
+                                   s_released := S (s_released st0) |}).
+  assert (Hnth : nth_error (upd_nth i f (strs s)) i = Some (f st)).
+  { rewrite nth_error_upd, Nat.eqb_refl, Hn. reflexivity. }
+  split; [|split; [|split]].
+  - apply (nholding_upd f (strs s) i st Hn Hh). unfold holding, f. cbn. rewrite Ho. reflexivity.
+  - exists (f st). split; [exact Hnth|]. unfold f. cbn. rewrite Hrel. auto.
+  - cbn [sstep_obs strs]. rewrite Hnth. unfold f. cbn. rewrite Ho. reflexivity.
+  - cbn [sstep_obs strs]. rewrite Hnth. unfold f. cbn. rewrite Ho. reflexivity.
+Qed.
+
+Example c11_example :
+  exists s, run senabled sstep sinit
+      [AOpen; AOpen; ALoopBegin; AReapBegin; AClose 0; AFire 1; ALoopResume; AClose 1; AOpen; ALoopEnd; AOpen] = Some s
+    /\ map s_released (strs s) = [1; 1; 0; 0] /\ map s_opened (strs s) = [true; true; false; true]
+    /\ m_nr (lk s) = 1%Z /\ loop s = LIdle.
+Proof. eexists. split; [vm_compute; reflexivity|]. repeat split; reflexivity. Qed.
